@@ -15,9 +15,9 @@ CHECKS = {
  'C11': ('exploration', 'Fingerprints (inode, size, mtime, bytes) of user-owned files around every command, trace-level proof that their scripts never ran, content oracle for dependents, rebuild after removal, override warning.', '4/C11', 'file fingerprint monitor + ownership automaton over generated histories'),
  'C14': ('exploration', 'Executed multiset per command vs reference model for ifcreate watchers and always nodes, plus error probes for redo-ifcreate.', '4/C14', 'trace vs reference model, ifcreate/always-biased generator'),
  'C04': ('exploration', 'Exhaustive product of script behaviours x output sizes x prior target states, one command each, with an inotify event log, a concurrent reader and a strace-attributed subset; expected post-state is known from the generator.', '4/C04', 'behaviour-product enumeration with inotify/strace/reader monitors'),
- 'C06': ('exploration', 'Order monitor over the unified trace (overlapping S..E intervals per target, lock released before script end, build decision before the previous result is recorded) under contending invocations with injected delays.', '4/C06', 'trace order monitor + hook-event monitor under contention and delay injection'),
+ 'C06': ('exploration', 'Three independent monitors under contending invocations with injected delays and aborts: order monitor over the unified trace, hook lock monitor (mutual exclusion, script alive without a holder, released before recorded), atomic F_GETLK probes of live scripts; hand-over scenario.', '4/C06', 'trace order monitor + hook-event monitor under contention and delay injection'),
  'C07': ('exploration', 'Twin replay: same pre-history in two sandboxes, then serial vs scheduled run; compares files, exit status and a normalised database; per-run execution counts from the trace.', '4/C07', 'serial-vs-parallel twin comparison (files, status, normalised DB) with delay injection'),
- 'C08': ('exploration', 'Harness-owned jobserver pipe byte accounting, work-section overlap from the trace, on-exit token self-check, per-process token ledger from hook events.', '4/C08', 'token conservation ledger (pipe bytes + hook events) and overlap monitor'),
+ 'C08': ('exploration', 'Harness-owned token and cheat pipes (byte accounting), on-exit self-check of own and nested jobservers, work-section overlap from the trace, per-process token ledger from hook events, gate-driven coincidences; borrowed-slot scenarios.', '4/C08', 'token conservation ledger (pipe bytes + hook events) and overlap monitor'),
  'C10': ('fault_enumeration', 'LD_PRELOAD shim kills one process or the whole tree immediately before every state-changing libc call of a build; recovery protocol judged by content oracle.', '4/C10', 'crash-point enumeration (LD_PRELOAD kill shim) + recovery oracle'),
  'C12': ('exploration', 'Systematic product of cycle length x prefix x siblings x entry node x -j x re-run; stuck detector and exit-status oracle.', '4/C12', 'cycle scenario enumeration with stuck detector'),
  'C13': ('exploration', 'Independent reference of candidate order and $1/$2/$3/cwd compared with redo-whichdo, with what the executed script echoes, and with possible_do_files called directly; add/remove mutation step.', '4/C13', 'differential against an independent reference (commands + direct calls)'),
@@ -33,13 +33,25 @@ def main():
     hooks = subprocess.run(['git', '-C', '/repo', 'log', '--format=%h %s'], capture_output=True, text=True).stdout.split('\n')
     hook_commits = [l.split()[0] for l in hooks if l and ('verification hook' in l.lower() or 'verif hook' in l.lower() or 'verif:' in l.lower())]
     checks, na = [], []
+    try:
+        res = json.load(open(os.path.join(V, 'seeded', 'RESULTS.json')))
+    except (OSError, ValueError):
+        res = {}
+    caught = {}
+    for name, r in res.items():
+        for k, v in r.items():
+            if k.startswith('_'):
+                continue
+            c, tier = k.split('/')
+            caught.setdefault(c, []).append('%s%s' % (name, '' if v.get('caught') else ' (missed)'))
     for p in props:
         i = p['id']
         if i in CHECKS and os.path.exists(os.path.join(V, 'rvlib', 'checks', i.lower() + '.py')):
             cat, text, ref, tech = CHECKS[i]
             checks.append(dict(property_id=i, quick_cmd='./rv check %s --tier quick' % i, thorough_cmd='./rv check %s --tier thorough' % i,
                                evidence_file='evidence/%s.json' % i, replay_cmd_template='./rv check %s --replay {path}' % i, engine='rv',
-                               level_claimed=dict(category=cat, text=text, design_ref='DESIGN.md §' + ref), level_note=TB, technique=tech))
+                               level_claimed=dict(category=cat, text=text, design_ref='DESIGN.md §' + ref),
+                               level_note=TB + '; seeded breaking changes run against this check (quick tier, see seeded/RESULTS.json and DESIGN.md 9.5): ' + (', '.join(sorted(caught.get(i, []))) or 'none'), technique=tech))
         else:
             na.append(dict(property_id=i, reason='check not implemented yet in this commit (planned, see DESIGN.md §4)'))
     man = dict(version=1, setup_cmd='./rv setup',
